@@ -272,7 +272,9 @@ func registerModels(e *Engine) {
 	m["os.ReadFile"] = func(c *CallCtx) *Term {
 		p := c.args[0]
 		ok := uf("fsReadable", BoolS, p)
-		c.setFailed(Not(ok))
+		// an unreadable file is a failure event unless the caller declared the
+		// read optional (fsOptional, set by an `assume` clause of the contract)
+		c.setFailed(And(Not(ok), Not(uf("fsOptional", BoolS, p))))
 		return c.ret(Ite(ok, uf("fsContent", StringS, p), StrT("")), Ite(ok, NilIface, MkIface(c.e.ghostTag("liberr"), Ctor(AnyS, "a_int", uf("readErr", IntS, p)))))
 	}
 	openFile := func(c *CallCtx) *Term {
@@ -539,7 +541,7 @@ func (e *Engine) stringElems(st *State, s *Term) []*Term {
 	e.leafComp("E:string", types.Typ[types.String])
 	out := []*Term{}
 	for i := int64(0); i < n.IVal.Int64(); i++ {
-		out = append(out, Select(e.comp(st, "E:string"), ElemLoc(SliceBase(s), Add(SliceOff(s), IntT(i)))))
+		out = append(out, Select(e.comp(st, "E:string"), ElemLoc(SliceBase(s), ElemIndex(SliceOff(s), IntT(i)))))
 	}
 	return out
 }
